@@ -39,7 +39,7 @@ type Program struct {
 
 // Func is a declared function, method or function literal of a repo package.
 type Func struct {
-	recvAsParam bool // a method of the reference tree written as a function taking the receiver first (names.go)
+	recvAsParam      bool // a method of the reference tree written as a function taking the receiver first (names.go)
 	decodePtrTargets map[types.Object]bool
 	decodeParams     map[int]bool
 	progFuncs        map[*types.Func]*Func     // the program's function index (set by Load)
